@@ -138,7 +138,16 @@ Definition nla_ext_deps (dfx : bool) (ivs : list ivar) (e : ieq) : ieq :=
   else e.
 Definition nla_dep_fix : bool := false.   (* the repair was tried and withdrawn: see known finding C20-nla-external-dependency *)
 
-Definition analyse_xg (fixed dfx : bool) (s : system) (marks : list xmark) : xresult :=
+(** DEFECT C20-uninitialised-state-not-rescued.  A variable used in an ODE without initial value (SHOULD_BE_STATE) that is
+    marked as external stayed "not initialised": the third pass only rescues external variables of type UNKNOWN.
+    [srf = true] is the code with fixes/C20-uninitialised-state-rescue.diff: right after the check of the marks, an
+    external SHOULD_BE_STATE variable becomes a STATE (its ODE then turns into the placeholder equation, as for an
+    initialised state). *)
+Definition state_rescue (srf : bool) (v : ivar) : ivar :=
+  if srf && iv_external v && vtype_eqb (iv_type v) VShouldBeState then set_type v VState else v.
+Definition state_rescue_fix : bool := true.
+
+Definition analyse_xg (fixed dfx srf : bool) (s : system) (marks : list xmark) : xresult :=
   if negb (resolvable s) then mkXresult Malformed [] false else
   match build s with
   | None => mkXresult Malformed [] false
@@ -152,7 +161,7 @@ Definition analyse_xg (fixed dfx : bool) (s : system) (marks : list xmark) : xre
           | _ :: _ => mkXresult (Done (invalid_result MInvalid (vs_issues vst))) xi1 false
           | [] =>
               let '(ivs2, xi2) := fold_left (check_step fixed s (vs_voi vst)) pe (vs_ivs vst, []) in
-              match loop s (loop_fuel es0) 1 false (mkCs ivs2 0 0) es0 with
+              match loop s (loop_fuel es0) 1 false (mkCs (map (state_rescue srf) ivs2) 0 0) es0 with
               | None => mkXresult OutOfFuel (xi1 ++ xi2) false
               | Some (st, es1) =>
                   let r := finish s (vs_voi vst) (cs_ivs st) (map (nla_ext_deps dfx (cs_ivs st)) es1) (cs_vidx st) in
@@ -163,7 +172,8 @@ Definition analyse_xg (fixed dfx : bool) (s : system) (marks : list xmark) : xre
   end.
 
 (* [fixed = true]: the repaired analyser (both analyser patches); [false]: the code before them *)
-Definition analyse_x (fixed : bool) (s : system) (marks : list xmark) : xresult := analyse_xg fixed (fixed && nla_dep_fix) s marks.
+Definition analyse_x (fixed : bool) (s : system) (marks : list xmark) : xresult :=
+  analyse_xg fixed (fixed && nla_dep_fix) (fixed && state_rescue_fix) s marks.
 
 Definition analyse_marked (s : system) (marks : list xmark) : xresult := analyse_x voi_fix s marks.
 
